@@ -358,9 +358,10 @@ class Interp:
             self.obs.append({"o": "outcome", "v": "baseexc"})
 
 
-def run_program(progs, checker="typeguard", rng=None):
+def run_program(progs, checker="typeguard", rng=None, reset=True):
     """Runs from a clean thread state; returns (obs, residual) where residual describes the
-    thread state left behind (must be clean)."""
+    thread state left behind (must be clean). reset=False leaves that state in place so that the
+    caller can probe it."""
     jaxtyping.config.update("jaxtyping_disable", False)
     it = Interp(checker, rng)
     try:
@@ -368,7 +369,7 @@ def run_program(progs, checker="typeguard", rng=None):
     finally:
         jaxtyping.config.update("jaxtyping_disable", False)
     run_program.last_frame_checks = it.frame_checks
-    return obs, residual_state()
+    return obs, residual_state(reset=reset)
 
 
 def residual_state(reset=True):
